@@ -888,9 +888,12 @@ class Interp:
             ks = kinds(r) if r is not None else frozenset(["obj"])
             cap = None
             if len(src) == 2:
+                opts = []
                 for me, other in ((src[0], src[1]), (src[1], src[0])):
                     if isinstance(me, Abs) and me.sym:
-                        cap = (fname, me.sym, other.deps)
+                        opts.append((me.sym, other.deps))
+                if opts:
+                    cap = (fname, opts)
             sgs = [sign_of(x) for x in src]
             if fname == "min":
                 sg = "pos" if all(x == "pos" for x in sgs) else ("nonneg" if all(x in ("pos", "nonneg") for x in sgs) else None)
